@@ -91,6 +91,7 @@ type ExecutionContext struct {
 	template   *Template
 	macroDepth int
 	depth      int // how many templates are executing this one through include/ssi
+	superDepth int // how many block.Super calls are executing this one
 
 	// nodeState keeps the state tags need to remember between their executions within
 	// one rendering (e.g. the position of a cycle), keyed by node. It belongs to the
@@ -128,8 +129,9 @@ func newExecutionContext(tpl *Template, ctx Context) *ExecutionContext {
 
 func NewChildExecutionContext(parent *ExecutionContext) *ExecutionContext {
 	newctx := &ExecutionContext{
-		template: parent.template,
-		depth:    parent.depth,
+		template:   parent.template,
+		depth:      parent.depth,
+		superDepth: parent.superDepth,
 		// (a macro defined inside a macro body, a for or a with counts on from where
 		// its surroundings are: the bound is one bound for the whole rendering)
 		macroDepth: parent.macroDepth,
